@@ -218,3 +218,32 @@ Theorem trickle_qualifies W (chunks : list bytes) : (1 <= W)%nat -> chunks <> []
 Proof.
   intros HW Hne Hs Hb. split; [exact (proj1 (trickle_well_sized W HW chunks Hne Hb))|exact (trickle_pos_sized W HW chunks Hne Hs)].
 Qed.
+
+(* the request theorems instantiated *)
+From UV Require Import File.ReaderProofs4 File.ReaderProofs5 File.PreloadProofs.
+Local Open Scope Z_scope.
+Theorem trickle_range_loads : forall (W : nat) (chunks : list bytes), (1 <= W)%nat -> chunks <> [] -> Forall nonempty chunks -> (blen (concat chunks) < bound63)%N ->
+  let b := fst (trickle_layout W chunks) in
+  forall a k, 0 <= a ->
+    let '(_, loads, _, _) := take (stream nofault b a) k [] [] in
+    forall c, In c loads -> exists s e, In (c, s, e) (spans b 0) /\ s < a + k /\ a < e.
+Proof.
+  intros W chunks HW Hne Hs Hb b. destruct (trickle_qualifies W chunks HW Hne Hs Hb) as [H1 H2]. exact (range_loads b H1 H2).
+Qed.
+
+Theorem trickle_preload : forall (W : nat) (chunks : list bytes), (1 <= W)%nat -> chunks <> [] -> Forall nonempty chunks -> (blen (concat chunks) < bound63)%N ->
+  let b := fst (trickle_layout W chunks) in
+  forall fault,
+  let '(_, loads, st) := drain_all (stream fault b 0) [] [] in
+  (Forall (fun x => fault x = None) (tl (preorder b)) -> st = StEOF /\ loads = tl (preorder b))
+  /\ ((exists x, In x (tl (preorder b)) /\ fault x <> None) -> exists e, st = StErr e).
+Proof.
+  intros W chunks HW Hne Hs Hb b fault. destruct (trickle_qualifies W chunks HW Hne Hs Hb) as [H1 H2]. exact (preload_file fault b H1 H2).
+Qed.
+
+Theorem trickle_read_order : forall (W : nat) (chunks : list bytes), (1 <= W)%nat -> chunks <> [] -> Forall nonempty chunks -> (blen (concat chunks) < bound63)%N ->
+  let b := fst (trickle_layout W chunks) in
+  sloads (stream nofault b 0) = tl (preorder b).
+Proof.
+  intros W chunks HW Hne Hs Hb b. destruct (trickle_qualifies W chunks HW Hne Hs Hb) as [H1 H2]. exact (read_order b H1 H2).
+Qed.
